@@ -297,6 +297,12 @@ pub enum S {
     Paint(u8),
     /// `note_<sfx>(a, b);` — side channel, no observable effect
     Note(&'static str, usize, usize),
+    /// `callee_k(a1, …, an);` — a Roto function `fn callee_k(v_i: T1, …) { body }`
+    /// (printed among the helpers when the statement is built) whose
+    /// parameters are the variables `v_i`: under value semantics the call is
+    /// `let v_i = a_i; …; body` (parameters are copies; variable names are
+    /// unique in a script), which is what the spec gets
+    Call(usize, Vec<(usize, E)>, Vec<S>),
 }
 
 pub struct Case {
@@ -1135,6 +1141,14 @@ impl<'a> Gen<'a> {
                 return;
             }
             let (scrut, t) = self.p.pick(&cands).clone();
+            // the variable the examinee is read from: the match works on a COPY of the
+            // examinee, so guards (and arm bodies) that write to that variable — whole,
+            // a field path, compound assignment, push — change neither the arm taken
+            // nor what a later arm binds
+            let mut root_of = vec![];
+            vars_read(&scrut, &mut root_of);
+            let root = root_of.first().copied().filter(|w| !self.vars[*w].is_const && self.vars[*w].live);
+            let guard_writes = root.is_some() && self.p.chance(2, 5);
             let scrut = if self.p.chance(1, 5) { self.pass(&t, scrut) } else { scrut };
             let vs = self.variants_of(&t).unwrap();
             let mut arms = vec![];
@@ -1147,6 +1161,39 @@ impl<'a> Gen<'a> {
                 }
                 // optional guarded arm first
                 let guard_ix = ts.iter().position(|ft| matches!(ft, T::Int(..) | T::Bool));
+                // arms whose guard WRITES to the variable the examinee was read from
+                // (then says no, or tests a binding): the following arms of this
+                // variant still bind the value the match started with
+                let n_wg = if guard_writes && self.p.chance(2, 3) { 1 + self.p.below(2) } else { 0 };
+                for _ in 0..n_wg {
+                    let rv = root.unwrap();
+                    let w = if self.vars[rv].anon.is_none() && self.p.chance(1, 2) {
+                        let rt = self.vars[rv].ty.clone();
+                        let e = self.build(&rt, 1);
+                        Some(S::Set(rv, vec![], e))
+                    } else {
+                        self.write_stmt(rv)
+                    };
+                    let Some(w) = w else { break };
+                    let binds: Vec<usize> = ts.iter().map(|ft| self.new_var(ft.clone(), None)).collect();
+                    let verdict = match guard_ix {
+                        Some(gi) if self.p.chance(1, 3) => {
+                            let lit = self.lit(&ts[gi]);
+                            E::Eq(self.p.chance(1, 2), Box::new(E::Var(binds[gi])), Box::new(lit))
+                        }
+                        _ => E::BLit(self.p.chance(1, 8)),
+                    };
+                    let mut body = vec![S::Emit(E::Lit(78), T::Int(false, 8))];
+                    for b in &binds {
+                        body.extend(self.emit_var(*b));
+                    }
+                    for i in scope_mark..self.vars.len() {
+                        self.vars[i].live = false;
+                    }
+                    self.kinds.insert("match-guard-writes-examinee");
+                    self.kinds.insert("held-copy");
+                    arms.push(Arm { pat: Some((pat.clone(), *tag)), binds, guard: Some(E::Seq(vec![w], Box::new(verdict))), body });
+                }
                 let reps = if guard_ix.is_some() && self.p.chance(1, 2) { 2 } else { 1 };
                 for rep in 0..reps {
                     let binds: Vec<usize> = ts.iter().map(|ft| self.new_var(ft.clone(), None)).collect();
@@ -1164,6 +1211,14 @@ impl<'a> Gen<'a> {
                         None
                     };
                     let mut body = vec![];
+                    if let Some(rv) = root.filter(|_| self.p.chance(1, 5)) {
+                        // the arm writes to the matched variable, then reads its bindings
+                        if let Some(w) = self.write_stmt(rv) {
+                            body.push(w);
+                            self.kinds.insert("match-arm-writes-examinee");
+                            self.kinds.insert("held-copy");
+                        }
+                    }
                     let n = self.p.below(3);
                     for _ in 0..n {
                         self.stmt(depth - 1, &mut body);
@@ -1206,7 +1261,19 @@ impl<'a> Gen<'a> {
             let T::List(et) = self.vars[l].ty.clone() else { unreachable!() };
             let scope_mark = self.vars.len();
             let x = self.new_var((*et).clone(), None);
-            let mut body = self.emit_var(x);
+            let mut body = vec![];
+            if !self.vars[l].is_const && self.p.chance(1, 4) {
+                // the loop runs over the storage the iterable named when it started:
+                // giving the VARIABLE another list inside the body does not end it
+                let n = self.p.below(3);
+                self.in_for = true;
+                let xs = (0..n).map(|_| self.build(&et, 1)).collect();
+                self.in_for = false;
+                body.push(S::Set(l, vec![], E::Lst(xs)));
+                self.kinds.insert("for-rebinds-iterable");
+                self.kinds.insert("held-copy");
+            }
+            body.extend(self.emit_var(x));
             let same: Vec<usize> = ls.iter().copied().filter(|w| self.vars[*w].ty == self.vars[l].ty).collect();
             let target = *self.p.pick(&same);
             self.in_for = true;
@@ -1652,6 +1719,10 @@ impl Src<'_> {
                 S::Swap(l, i, j) => *out += &format!("{ind}{}.swap({i}, {j});\n", self.e(l, None)),
                 S::Paint(v) => *out += &format!("{ind}paint_stack({v});\n"),
                 S::Note(sfx, a, b) => *out += &format!("{ind}note_{sfx}({}, {});\n", vname(*a), vname(*b)),
+                S::Call(k, ps, _) => {
+                    let args = ps.iter().map(|(_, a)| self.e(a, None)).collect::<Vec<_>>().join(", ");
+                    *out += &format!("{ind}callee_{k}({args});\n");
+                }
                 S::Emit(e, t) => {
                     let es = self.e(e, Some(t));
                     // bind once so that the emitted expression is evaluated once
@@ -1869,6 +1940,14 @@ fn spec_block(ss: &[S], args: &Args, out: &mut Vec<String>) {
                 out.extend([i.to_string(), j.to_string()]);
             }
             S::Paint(_) | S::Note(..) => out.push("nop".into()),
+            S::Call(_, ps, body) => {
+                // one statement of the spec: `if 0 < 1 { let p_i = a_i; …; body } else { }`
+                out.extend(["iflt".into(), "L".into(), "0".into(), "1".into()]);
+                let mut all: Vec<S> = ps.iter().map(|(v, a)| S::Let(*v, None, a.clone())).collect();
+                all.extend(body.iter().cloned());
+                spec_block(&all, args, out);
+                out.push("0".into());
+            }
             S::Emit(e, _) => {
                 out.push("emit".into());
                 spec_e(e, args, out);
@@ -2120,7 +2199,7 @@ fn rep_env() -> (Env, Vec<T>) {
 }
 
 pub fn n_reps() -> u64 {
-    n_order_reps() + 2 * rep_env().1.len() as u64
+    n_held_reps() + n_order_reps() + 2 * rep_env().1.len() as u64
 }
 
 // ---- evaluation order inside constructors: constructor kind x earlier component x later write
@@ -2164,6 +2243,13 @@ fn order_env(t: &T) -> Env {
             Decl::Record { name: "X".into(), generic: 0, fields: vec![f("a", u(8)), f("b", t.clone())] },
             Decl::Enum { name: "VV".into(), generic: 0, variants: vec![("A".into(), vec![t.clone(), u(8)]), ("B".into(), vec![])] },
             Decl::Record { name: "W3".into(), generic: 0, fields: vec![f("a", t.clone()), f("b", u(8)), f("c", t.clone())] },
+            // 8, 9: holders of the held-copy representatives
+            Decl::Record { name: "H".into(), generic: 0, fields: vec![f("o", T::Opt(Box::new(t.clone()))), f("k", u(8))] },
+            Decl::Enum {
+                name: "VH".into(),
+                generic: 0,
+                variants: vec![("A".into(), vec![t.clone(), u(8)]), ("B".into(), vec![u(64), u(64)]), ("C".into(), vec![])],
+            },
         ],
     }
 }
@@ -2423,6 +2509,212 @@ fn gen_order_rep(idx: u64) -> Option<Case> {
     Some(Case { script, spec, args, sig: format!("order-representative+ctor:{ctor}+early:{}+{}", EARLY[ek], pr.kinds.join("+")) })
 }
 
+
+// ---- a held copy is not reached by a later write: holder kind x value kind x write
+
+/// The places where the language takes a COPY of an aggregate and keeps using
+/// it while user code runs that can write to the variable the copy was taken
+/// from: the examinee of a `match` (discriminant read, then per candidate arm
+/// the bindings are extracted and the guard runs — a guard is arbitrary code),
+/// the iterable of a `for`, a `let`, a parameter. `<write>` ranges over the
+/// writes of `early_group` (assign the variable / a field / a nested field,
+/// compound assignment, push).
+const HOLDS: [&str; 11] = [
+    "match-guard-local",    // let o = Some(<v>); match o { Some(y) if { <write>; o = Some(<v>); false } => .., Some(y) => emit y, None => .. }
+    "match-guard-variant",  // … Some(y) if { o = None; <write>; false } => .., Some(y) => emit y, None => ..
+    "match-guard-param",    // fn callee(o: Option[T], n: T) { match o { Some(y) if { o = Some(n); false } => .., Some(y) => emit y, .. } }
+    "match-guard-field",    // match r.o { Some(y) if { r.o = Some(<v>); false } => .., Some(y) if { r = H {..}; false } => .., Some(y) => emit y, .. }
+    "match-guard-true",     // … Some(y) if { o = None; <write>; true } => emit y, ..
+    "match-own-enum",       // match e { A(a, b) if { e = VH.B(..); false } => .., A(a, b) if { e = VH.C; false } => .., A(a, b) => emit a b, .. }
+    "match-wild-after-guard", // match o { Some(y) if { o = None; false } => .., None => .., _ => { emit 77; emit o } }
+    "match-arm-write",      // match o { Some(y) => { o = None; <write>; emit y; emit o } .. }
+    "match-binding-write",  // match o { Some(y) => { <write>; y = <v>; emit y; emit o } .. }
+    "for-rebind",           // let l = [<v>, <v>]; for x in l { l = []; <write>; emit x }
+    "let-copy",             // let c = <v>; <write>; emit c
+];
+
+pub fn n_held_reps() -> u64 {
+    (HOLDS.len() * EARLY.len()) as u64
+}
+
+fn gen_held_rep(idx: u64) -> Case {
+    let hk = idx as usize / EARLY.len();
+    let ek = idx as usize % EARLY.len();
+    let hold = HOLDS[hk];
+    let t = early_type(ek);
+    let mut p = Prng::for_case(0xC02_08A1, idx);
+    let env = order_env(&t);
+    let mut g = Gen { p: &mut p, env, vars: vec![], helpers: vec![], kinds: Default::default(), fresh: 0, closed: false, closed_args: false, in_for: false };
+    let mut body = vec![];
+    let u8t = T::Int(false, 8);
+    let ot = T::Opt(Box::new(t.clone()));
+    let some = |e: E| E::Enm("Some".into(), 0, vec![e]);
+    let none = || E::Enm("None".into(), 1, vec![]);
+    let mark = |n: i128| S::Emit(E::Lit(n), T::Int(false, 8));
+    let no = |ss: Vec<S>| E::Seq(ss, Box::new(E::BLit(false)));
+    let some_pat = || Some(("Some".to_string(), 0usize));
+    let none_pat = || Some(("None".to_string(), 1usize));
+    for m in 0..4 {
+        let Some((read, root, write)) = early_group(&mut g, ek, m, &mut body) else { break };
+        let let_ = |g: &mut Gen, t: &T, e: E, body: &mut Vec<S>| -> usize {
+            let ann = t.src(&g.env);
+            let v = g.new_var(t.clone(), None);
+            body.push(S::Let(v, Some(ann), e));
+            v
+        };
+        // an arm `Some(y) [if guard] => { mark; emit y; extra }`
+        let arm = |g: &mut Gen, pat: Option<(String, usize)>, bind_t: &[T], guard: Option<E>, n: i128, extra: Vec<S>| -> Arm {
+            let binds: Vec<usize> = bind_t.iter().map(|bt| g.new_var(bt.clone(), None)).collect();
+            let mut b = vec![mark(n)];
+            for y in &binds {
+                b.extend(g.emit_var(*y));
+            }
+            b.extend(extra);
+            Arm { pat, binds, guard, body: b }
+        };
+        match hold {
+            "match-guard-local" | "match-guard-variant" | "match-guard-true" | "match-wild-after-guard" => {
+                let o = let_(&mut g, &ot, some(read.clone()), &mut body);
+                let mut arms = vec![];
+                match hold {
+                    "match-guard-local" => {
+                        let gd = no(vec![write.clone(), S::Set(o, vec![], some(read.clone()))]);
+                        arms.push(arm(&mut g, some_pat(), &[t.clone()], Some(gd), 101, vec![]));
+                        arms.push(arm(&mut g, some_pat(), &[t.clone()], None, 102, vec![]));
+                        arms.push(arm(&mut g, none_pat(), &[], None, 103, vec![]));
+                    }
+                    "match-guard-variant" => {
+                        let gd = no(vec![S::Set(o, vec![], none()), write.clone()]);
+                        arms.push(arm(&mut g, some_pat(), &[t.clone()], Some(gd), 101, vec![]));
+                        arms.push(arm(&mut g, none_pat(), &[], None, 103, vec![]));
+                        arms.push(arm(&mut g, some_pat(), &[t.clone()], None, 102, vec![]));
+                    }
+                    "match-guard-true" => {
+                        let gd = E::Seq(vec![S::Set(o, vec![], none()), write.clone()], Box::new(E::BLit(true)));
+                        arms.push(arm(&mut g, some_pat(), &[t.clone()], Some(gd), 101, vec![]));
+                        arms.push(arm(&mut g, some_pat(), &[t.clone()], None, 102, vec![]));
+                        arms.push(arm(&mut g, none_pat(), &[], None, 103, vec![]));
+                    }
+                    _ => {
+                        let gd = no(vec![S::Set(o, vec![], none()), write.clone()]);
+                        arms.push(arm(&mut g, some_pat(), &[t.clone()], Some(gd), 101, vec![]));
+                        arms.push(arm(&mut g, none_pat(), &[], None, 103, vec![]));
+                        let rest = g.emit_var(o);
+                        arms.push(arm(&mut g, None, &[], None, 77, rest));
+                    }
+                }
+                body.push(S::Match(E::Var(o), arms));
+                body.extend(g.emit_var(o));
+            }
+            "match-guard-param" => {
+                // the callee matches on ITS parameter; the guard overwrites the parameter
+                let o = g.new_var(ot.clone(), None);
+                let n = g.new_var(t.clone(), None);
+                let mut cb = vec![];
+                let gd1 = no(vec![S::Set(o, vec![], some(E::Var(n)))]);
+                let gd2 = no(vec![S::Set(o, vec![], none())]);
+                let arms = vec![
+                    arm(&mut g, some_pat(), &[t.clone()], Some(gd1), 101, vec![]),
+                    arm(&mut g, some_pat(), &[t.clone()], Some(gd2), 104, vec![]),
+                    arm(&mut g, some_pat(), &[t.clone()], None, 102, vec![]),
+                    arm(&mut g, none_pat(), &[], None, 103, vec![]),
+                ];
+                cb.push(S::Match(E::Var(o), arms));
+                cb.extend(g.emit_var(o));
+                let k = g.helpers.len();
+                let mut src = Src { env: &g.env, fresh: 50_000 + 1000 * k };
+                let mut text = String::new();
+                src.block(&cb, "    ", &mut text);
+                let h = format!("fn callee_{k}({}: {}, {}: {}) {{\n{text}}}", vname(o), ot.src(&g.env), vname(n), t.src(&g.env));
+                g.helpers.push(h);
+                body.push(S::Call(k, vec![(o, some(read.clone())), (n, E::Seq(vec![write.clone()], Box::new(read.clone())))], cb));
+            }
+            "match-guard-field" => {
+                let ht = T::Named(8, vec![]);
+                let mk_h = |o: E, k: i128| E::Rec(Some("H".into()), vec![("o".into(), o), ("k".into(), E::Lit(k))]);
+                let r = let_(&mut g, &ht, mk_h(some(read.clone()), 1), &mut body);
+                let fo = vec![(0usize, "o".to_string())];
+                let gd1 = no(vec![write.clone(), S::Set(r, fo.clone(), some(read.clone()))]);
+                let gd2 = no(vec![S::Set(r, vec![], mk_h(none(), 2))]);
+                let arms = vec![
+                    arm(&mut g, some_pat(), &[t.clone()], Some(gd1), 101, vec![]),
+                    arm(&mut g, some_pat(), &[t.clone()], Some(gd2), 104, vec![]),
+                    arm(&mut g, some_pat(), &[t.clone()], None, 102, vec![]),
+                    arm(&mut g, none_pat(), &[], None, 103, vec![]),
+                ];
+                body.push(S::Match(Gen::path_expr(r, &fo), arms));
+                body.extend(g.emit_var(r));
+            }
+            "match-own-enum" => {
+                let vt = T::Named(9, vec![]);
+                let u64t = T::Int(false, 64);
+                let e = let_(&mut g, &vt, E::Enm("VH.A".into(), 0, vec![read.clone(), E::Lit(7)]), &mut body);
+                let to_b = S::Set(e, vec![], E::Enm("VH.B".into(), 1, vec![E::Lit(0x1111_1111_1111_1111), E::Arg(3)]));
+                let to_c = S::Set(e, vec![], E::Enm("VH.C".into(), 2, vec![]));
+                let a_pat = || Some(("A".to_string(), 0usize));
+                let gd1 = no(vec![to_b]);
+                let gd2 = no(vec![to_c, write.clone()]);
+                let arms = vec![
+                    arm(&mut g, a_pat(), &[t.clone(), u8t.clone()], Some(gd1), 101, vec![]),
+                    arm(&mut g, a_pat(), &[t.clone(), u8t.clone()], Some(gd2), 104, vec![]),
+                    arm(&mut g, a_pat(), &[t.clone(), u8t.clone()], None, 102, vec![]),
+                    arm(&mut g, Some(("B".to_string(), 1)), &[u64t.clone(), u64t.clone()], None, 105, vec![]),
+                    arm(&mut g, Some(("C".to_string(), 2)), &[], None, 103, vec![]),
+                ];
+                body.push(S::Match(E::Var(e), arms));
+                body.extend(g.emit_var(e));
+            }
+            "match-arm-write" | "match-binding-write" => {
+                let o = let_(&mut g, &ot, some(read.clone()), &mut body);
+                let y = g.new_var(t.clone(), None);
+                let mut b = vec![];
+                if hold == "match-arm-write" {
+                    b.push(S::Set(o, vec![], none()));
+                    b.push(write.clone());
+                } else {
+                    b.push(write.clone());
+                    b.push(S::Set(y, vec![], read.clone()));
+                }
+                b.extend(g.emit_var(y));
+                b.extend(g.emit_var(o));
+                let arms = vec![
+                    Arm { pat: some_pat(), binds: vec![y], guard: None, body: b },
+                    arm(&mut g, none_pat(), &[], None, 103, vec![]),
+                ];
+                body.push(S::Match(E::Var(o), arms));
+                body.extend(g.emit_var(o));
+            }
+            "for-rebind" => {
+                let lt = T::List(Box::new(t.clone()));
+                let l = let_(&mut g, &lt, E::Lst(vec![read.clone(), read.clone()]), &mut body);
+                let x = g.new_var(t.clone(), None);
+                let mut b = vec![S::Set(l, vec![], E::Lst(vec![])), write.clone()];
+                b.extend(g.emit_var(x));
+                body.push(S::For(x, E::Var(l), b));
+                body.extend(g.emit_var(l));
+            }
+            "let-copy" => {
+                let c = let_(&mut g, &t, read.clone(), &mut body);
+                body.push(write.clone());
+                body.extend(g.emit_var(c));
+            }
+            other => unreachable!("{other}"),
+        }
+        body.extend(g.emit_var(root));
+        g.kinds.insert(match &write {
+            S::Set(_, p, _) if p.is_empty() => "held-assign-var",
+            S::Set(..) => "held-assign-field",
+            S::CSet(..) => "held-compound-assign",
+            _ => "held-push",
+        });
+    }
+    let pr = Program { consts: vec![], env: g.env, helpers: g.helpers, body, kinds: g.kinds.into_iter().collect() };
+    let script = prune_decls(&pr);
+    let args: Vec<Args> = (0..3).map(|_| gen_args(&mut p)).collect();
+    let spec = args.iter().map(|a| spec(&pr, a)).collect::<Vec<_>>().join("\n");
+    Case { script, spec, args, sig: format!("held-copy-representative+hold:{hold}+value:{}+{}", EARLY[ek], pr.kinds.join("+")) }
+}
+
 /// the source of a program without the declarations nothing refers to (a
 /// representative should be as small as its class allows)
 fn prune_decls(pr: &Program) -> String {
@@ -2468,6 +2760,11 @@ fn prune_decls(pr: &Program) -> String {
 /// representative `idx` of the batteries: independent of the seed of the run.
 /// The evaluation-order representatives come first.
 pub fn gen_rep_case(idx: u64) -> Case {
+    // the held-copy representatives come first, then evaluation order, then representation
+    if idx < n_held_reps() {
+        return gen_held_rep(idx);
+    }
+    let idx = idx - n_held_reps();
     if idx < n_order_reps() {
         return gen_order_rep(idx).unwrap_or(Case {
             script: "fn main(p0: u8, p1: u16, p2: u32, p3: u64, p4: i8, p5: i64, p6: bool) {\n}\n".into(),
@@ -2531,6 +2828,56 @@ fn install_panic_hook() {
     }));
 }
 
+/// Every item of the script's MIR — the structured dump of the real lowerer's output after
+/// dead-code elimination, hook `verif_hooks::c03::dump` — goes through the Lean checker
+/// `RotoV.ValueMir.matchIsOnCopy` (`c02 mirmatch`), which is proved sound
+/// (`match_bindings_read_the_switched_value_mir`): if it accepts, then on EVERY path through the
+/// item no instruction between a discriminant read of a variable and a binding extraction from
+/// it writes, drops or moves that variable. A rejection is a violation with the script as the
+/// failing input (the behavioural run of the same script shows the wrong value when the path
+/// is taken); the number of binding extractions verified is measured.
+fn mir_match_check(script: &str, rt: &Runtime<NoCtx>, drv: &mut Driver, rep: &mut Report, input: &dyn Fn(Value) -> Value) {
+    let dumped = std::panic::catch_unwind(std::panic::AssertUnwindSafe(|| {
+        roto::verif_hooks::c03::dump(FileTree::test_file("c02.roto", script, 0), rt)
+    }));
+    let Ok(Ok(items)) = dumped else {
+        rep.hist("mir_match_checker", "no-dump");
+        return;
+    };
+    for it in items {
+        let nums: Vec<String> = it.nums.iter().map(|n| n.to_string()).collect();
+        let ans = drv.ask(&format!("c02 mirmatch {}", nums.join(" ")));
+        let get = |k: &str| -> u64 {
+            ans.split(';').find_map(|kv| kv.strip_prefix(k)).and_then(|x| x.parse().ok()).unwrap_or(0)
+        };
+        if ans.starts_with("ok;") {
+            rep.hist("mir_match_checker", "items-accepted");
+            for _ in 0..get("binds=") {
+                rep.hist("mir_match_checker", "binding-extractions-verified");
+            }
+            for _ in 0..get("discr=") {
+                rep.hist("mir_match_checker", "discriminant-reads");
+            }
+        } else if ans.starts_with("bad;") {
+            let var = it.vars.get(get("var=") as usize).cloned().unwrap_or_default();
+            crate::viol(
+                rep,
+                &format!(
+                    "the MIR of a well-typed script extracts a pattern binding from variable `{var}` on a path on which `{var}` was written (or dropped / moved) after its discriminant was read: the match does not work on a copy (item {}, {ans})",
+                    it.name
+                ),
+                "match-binding-after-write",
+                input(json!({"item": it.name, "checker": ans, "variable": var, "mir": it.text})),
+            );
+        } else {
+            rep.mismatch(
+                "the Lean reader cannot decode the MIR dump of an item (grammar of verif_hooks::c03 changed?)",
+                input(json!({"item": it.name, "answer": ans})),
+            );
+        }
+    }
+}
+
 fn run_case(script: &str, specs: &[String], args: &[Args], sig: &str, rt: &Runtime<NoCtx>, drv: &mut Driver, rep: &mut Report) {
     rep.evaluations += 1;
     let input = |extra: Value| {
@@ -2571,6 +2918,8 @@ fn run_case(script: &str, specs: &[String], args: &[Args], sig: &str, rt: &Runti
         Ok(Ok(p)) => p,
     };
     rep.hist("beh_scripts", "ok");
+    // before anything runs: the real lowerer's MIR of the script through the verified checker
+    mir_match_check(script, rt, drv, rep, &input);
     let f = match pkg.get_function::<fn(u8, u16, u32, u64, i8, i64, bool) -> ()>("main") {
         Ok(f) => f,
         Err(e) => {
